@@ -9,7 +9,11 @@ from props import c01
 ID = "C02"
 RULE = ("class chains and well-formed call shapes of C01; for each, the complete callback trace is compared, then for "
         "EVERY position k of that trace a run is made in which the k-th callback raises (single-fault enumeration), plus "
-        "a run with validators globally disabled. Non-trivial = expected trace has >= 3 events or a fault is injected; "
+        "a run with validators globally disabled. The chains carry C01's harness-only variation: exception roots outside the "
+        "Exception branch (args of auto_exc classes), definition histories (decoy, sibling and warm-up classes; decorator "
+        "objects, and_() validator composites and attr.ib() objects shared between fields and classes and decorated further "
+        "with `@x.validator` by one of them), `@x.validator` / `@x.default` spellings, argument objects with unusual special "
+        "methods. Non-trivial = expected trace has >= 3 events or a fault is injected; "
         "distinct = distinct (class spec, call, fault, switch)")
 ASSUMPTIONS = c01.ASSUMPTIONS + [
     "callbacks are instrumented closures recording (kind, field, index, canonical arguments); a fault is a UserError raised by exactly one of them",
@@ -38,7 +42,7 @@ def gen_cases(tier, rng):
             yield {"__gen_error__": f"{type(e).__name__}: {e}", "hspec": h}
             continue
         for _ in range(2):
-            call = ib.gen_call(rng, h, malformed=0.0)
+            call = ib.gen_call(rng, h, malformed=0.0, odd=c01.ODD)
             _, obs = ib.construct(h, call, None, True)
             if obs["exc"] == "typeError" and not obs["trace"]:
                 continue  # not a well-formed call (generator corner); C01 covers malformed calls
@@ -92,7 +96,7 @@ def shrink(case):
 def neighbours(case, rng):
     h = case["hspec"]
     for _ in range(4):
-        call = ib.gen_call(rng, h, malformed=0.0)
+        call = ib.gen_call(rng, h, malformed=0.0, odd=c01.ODD)
         _, obs = ib.construct(h, call, None, True)
         yield make_case(h, call, None, True)
         for e in obs["trace"]:
